@@ -1,7 +1,7 @@
 (* C02/Property.v — the property theorems and nothing else. *)
 From Coq Require Import List Reals Sorted Lra.
 Import ListNotations.
-From SM Require Import Base.Num C02.Model C02.Proofs C03.Model C03.Proofs.
+From SM Require Import Base.Num C02.Model C02.Proofs C02.Density Gen.C02_bodies C02.Translated C03.Model C03.Proofs.
 Open Scope R_scope.
 
 (* values are strictly increasing for every distribution type, centre, width > 0,
@@ -66,3 +66,15 @@ Theorem C02_width_convention : forall width center,
   resolve ROps true width center = (center, width * center) /\ resolve ROps false width center = (0, width).
 Proof. intros; split; reflexivity. Qed.
 Print Assumptions C02_width_convention.
+
+(* The tie by regeneration: Gen/C02_bodies.v holds the grid constructions, masks and density formulas of the six
+   _weights methods as they are written in the current weights.py (translated term by term on every run).
+   They are the model's grids and formulas - so every theorem above speaks about the text of the code. *)
+Theorem C02_code_grids : forall d c s nsig npts lb ub,
+  gen_grid d c s nsig npts lb ub = grid ROps (sqrt 3) 1e-8 d c s nsig npts lb ub.
+Proof. exact code_grid_is_model. Qed.
+Print Assumptions C02_code_grids.
+Theorem C02_code_formulas : forall (lgam : R -> R) d x c s lb ub, s <> 0 -> c <> 0 ->
+  gen_px lgam d x c s lb ub = model_px lgam d c s x.
+Proof. exact code_px_is_model. Qed.
+Print Assumptions C02_code_formulas.
